@@ -36,8 +36,8 @@ from harness import zones as Z
 
 ID = "C11"
 BACKENDS = ("py", "rs")
-GEN_MODULES = ()
-MIN_THEOREMS = 38
+GEN_MODULES = ("DTArith",)
+MIN_THEOREMS = 42
 US = D.US
 DAY = 86400 * US
 YMAX = Z.YMAX_QUICK
